@@ -470,6 +470,31 @@ pub fn print_guard_user(g: &G) -> String {
     }
 }
 
+thread_local! {
+    /// when set, every multi-element list inside a printed pattern (tuple, tuple struct, struct, slice) ends in a
+    /// trailing separator — legal Rust with the same meaning, and the documented short rendering stays the same
+    pub static TRAILING_COMMAS: std::cell::Cell<bool> = const { std::cell::Cell::new(false) };
+}
+
+/// does the pattern contain a tuple, tuple struct or non-empty slice (a list that can carry a trailing comma)?
+pub fn print_pat_has_list(c: &crate::c06::MatchCase) -> bool {
+    c.alts.iter().flatten().any(|p| {
+        has_construct(p, &|q| match q {
+            P::Pair(..) | P::EB(..) => true,
+            P::Slice(a, r, b) => !a.is_empty() || r.is_some() || !b.is_empty(),
+            _ => false,
+        })
+    })
+}
+
+fn tc() -> &'static str {
+    if TRAILING_COMMAS.with(|c| c.get()) {
+        ","
+    } else {
+        ""
+    }
+}
+
 pub fn print_pat(p: &P, ty: Ty) -> String {
     let f = |o: &Option<Box<P>>, name: &str, t: Ty| {
         o.as_ref().map(|p| format!("{name}: {}", print_pat(p, t)))
@@ -491,9 +516,9 @@ pub fn print_pat(p: &P, ty: Ty) -> String {
             .join(" | "),
         P::Some(sub) => format!("Some({})", print_pat(sub, Ty::U8)),
         P::None => "None".into(),
-        P::Pair(a, b) => format!("({}, {})", print_pat(a, Ty::U8), print_pat(b, Ty::U8)),
+        P::Pair(a, b) => format!("({}, {}{})", print_pat(a, Ty::U8), print_pat(b, Ty::U8), tc()),
         P::EA => "E::A".into(),
-        P::EB(sub) => format!("E::B({})", print_pat(sub, Ty::U8)),
+        P::EB(sub) => format!("E::B({}{})", print_pat(sub, Ty::U8), tc()),
         P::EC(x, y) => {
             let mut parts: Vec<String> = [f(x, "x", Ty::U8), f(y, "y", Ty::Bool)]
                 .into_iter()
@@ -522,7 +547,8 @@ pub fn print_pat(p: &P, ty: Ty) -> String {
                 Some(Some(n)) => parts.push(format!("{n} @ ..")),
             }
             parts.extend(suffix.iter().map(|p| print_pat(p, Ty::U8)));
-            format!("[{}]", parts.join(", "))
+            let t = if parts.is_empty() { "" } else { tc() };
+            format!("[{}{t}]", parts.join(", "))
         }
         P::Eq(v) => format!("eq!({})", ty.eq_operand(v)),
         P::Ne(v) => format!("ne!({})", ty.eq_operand(v)),
